@@ -217,6 +217,21 @@ def run(run):
             run.case(("graph", aname), nontrivial=True)
         except Exception as ex:
             run.violate(aname.split("(")[0], "pipeline_backward_raised", {"architecture": aname}, {"error": repr(ex)[:200]})
+    from kaira.utils import calculate_num_filters_factor_image
+    for layers in (1, 2, 3, 4):
+        for (rn, rd) in ((1, 6), (1, 12), (1, 3), (1, 48), (1, 4), (5, 24), (1, 7)):
+            for channels in (1, 3):
+                for cplx in (False, True):
+                    num = channels * 4 ** layers * rn * (2 if cplx else 1)
+                    e = {"ev": "Filters", "layers": layers, "rn": rn, "rd": rd, "channels": channels, "cplx": cplx, "c": 0, "raised": False, "integral": num % rd == 0}
+                    if not e["integral"]:
+                        continue
+                    try:
+                        e["c"] = int(calculate_num_filters_factor_image(layers, rn / rd, channels=channels, is_complex_transmission=cplx))
+                    except Exception as ex:
+                        e["raised"] = True
+                    add(e, "calculate_num_filters_factor_image", {"layers": layers, "ratio": "%d/%d" % (rn, rd), "channels": channels, "complex": cplx})
+                    run.case(("filters", layers, rn, rd, channels, cplx), nontrivial=True)
     for (gname, mk, cplx, shape) in grad_cases():
         for rep in range(2 if quick else 6):
             ge = grad_event(gname, mk, cplx, shape, run.seed * 100 + rep * 7 + len(shape))
